@@ -33,6 +33,48 @@ def resolve_ext(prog, mod, expr):
     return None
 
 
+def _generator_value(prog, mod, expr, parents, depth=0):
+    """What a `generator=` argument is: 'default' (torch.default_generator), 'none' (None: the default generator is used),
+    'private' (a generator constructed somewhere: torch.Generator(...)), or None when the value is not followed."""
+    if depth > 3:
+        return None
+    if isinstance(expr, ast.Constant) and expr.value is None:
+        return "none"
+    nm = resolve_ext(prog, mod, expr) if isinstance(expr, (ast.Attribute, ast.Name)) else None
+    if nm == "torch.default_generator":
+        return "default"
+    if isinstance(expr, ast.Call):
+        fn = resolve_ext(prog, mod, expr.func) if isinstance(expr.func, (ast.Attribute, ast.Name)) else None
+        if fn == "torch.Generator":
+            return "private"
+        # a helper of this module (function or method of that name): every return must give the same answer
+        hname = expr.func.attr if isinstance(expr.func, ast.Attribute) else (expr.func.id if isinstance(expr.func, ast.Name) else None)
+        defs = [d for d in ast.walk(mod.tree) if isinstance(d, ast.FunctionDef) and d.name == hname] if hname else []
+        if len(defs) == 1:
+            rets = [r for r in ast.walk(defs[0]) if isinstance(r, ast.Return)]
+            hp = {}
+            for q in ast.walk(defs[0]):
+                for c in ast.iter_child_nodes(q):
+                    hp[c] = q
+            vals = {_generator_value(prog, mod, r.value, hp, depth + 1) if r.value is not None else "none" for r in rets}
+            if len(vals) == 1:
+                return vals.pop()
+        return None
+    if isinstance(expr, ast.Name):
+        # a local name: every assignment to it in the enclosing function must give the same answer
+        f = expr
+        while f in parents and not isinstance(f, (ast.FunctionDef, ast.Lambda)):
+            f = parents[f]
+        if isinstance(f, ast.FunctionDef):
+            asg = [a for a in ast.walk(f) if isinstance(a, ast.Assign) and any(isinstance(t, ast.Name) and t.id == expr.id for t in a.targets)]
+            other = [a for a in ast.walk(f) if isinstance(a, (ast.AugAssign, ast.AnnAssign, ast.For, ast.With, ast.NamedExpr)) and any(isinstance(t, ast.Name) and t.id == expr.id and isinstance(t.ctx, ast.Store) for t in ast.walk(a))]
+            if asg and not other and expr.id not in [a.arg for a in f.args.args + f.args.kwonlyargs]:
+                vals = {_generator_value(prog, mod, a.value, parents, depth + 1) for a in asg}
+                if len(vals) == 1:
+                    return vals.pop()
+    return None
+
+
 def scan_randomness(prog, modules):
     """Return list of (kind, name, module, node) for every reference to a randomness source."""
     found = []
@@ -50,9 +92,22 @@ def scan_randomness(prog, modules):
                 if name is None:
                     continue
                 if name in TORCH_DEFAULT_GEN:
-                    # a generator= keyword would detach the draw from the seeded default generator
+                    # a generator= keyword would detach the draw from the seeded default generator - unless what is passed IS that
+                    # generator (torch.default_generator, directly or through a local name / a helper that returns nothing else)
                     gen_kw = isinstance(par, ast.Call) and par.func is n and any(k.arg == "generator" for k in par.keywords)
-                    found.append(("foreign" if gen_kw else "torch", name + ("(generator=...)" if gen_kw else ""), mod, n))
+                    if gen_kw:
+                        gv = next(k.value for k in par.keywords if k.arg == "generator")
+                        what = _generator_value(prog, mod, gv, parents)
+                        if what == "default":
+                            found.append(("torch", name + "(generator=torch.default_generator)", mod, n))
+                        elif what == "none":
+                            found.append(("torch", name, mod, n))
+                        elif what == "private":
+                            found.append(("foreign", name + "(generator=...)", mod, n))
+                        else:
+                            found.append(("unknown-generator", name + "(generator=?)", mod, n))
+                    else:
+                        found.append(("torch", name, mod, n))
                 elif name.startswith(TORCH_DIST_PREFIX) and name.count(".") >= 2 and name.split(".")[-1][0].isupper():
                     found.append(("torch", name, mod, n))
                 elif any(name == p.rstrip(".") or name.startswith(p) for p in FOREIGN_RNG_PREFIXES):
@@ -203,6 +258,8 @@ def run(ck):
             ck.ok("C14.R1", inst, site, source=name)
         elif kind == "foreign":
             ck.violation("C14.R1", inst, site, "randomness drawn from %s, which the library's seeding call does not control" % name)
+        elif kind == "unknown-generator":
+            ck.undecided("C14.R1", inst, site, "%s: which generator is passed is not followed" % name)
         else:
             ck.violation("C14.R1", inst, site, "%s: iteration order depends on hash randomisation" % name)
     ck.check(n_torch >= 9, "C14.R1", "sources enumerated", "qucumber/", "only %d torch randomness sources found; 11 confirmed by hand (anchors vanished?)" % n_torch)
